@@ -212,24 +212,13 @@ impl PartialEq for Value {
             (P(left), P(right)) => left == right,
             (C(List(left, _)), C(List(right, _))) => left == right,
             (C(Tuple(left, _)), C(Tuple(right, _))) => {
-                if left.len() != right.len() {
-                    return false;
-                }
-                for (lk, lv) in left.iter() {
-                    let mut found = false;
-                    for (rk, rv) in right.iter() {
-                        if lk == rk {
-                            found = true;
-                            if lv != rv {
-                                return false;
-                            }
-                        }
-                    }
-                    if !found {
-                        return false;
-                    }
-                }
-                true
+                // Tuples are ordered. They are only equal if they have the
+                // same fields with equal values in the same order.
+                left.len() == right.len()
+                    && left
+                        .iter()
+                        .zip(right.iter())
+                        .all(|((lk, lv), (rk, rv))| lk == rk && lv == rv)
             }
             (F(left), F(right)) => left == right,
             (M(left), M(right)) => left == right,
